@@ -1,4 +1,4 @@
-import Req.Lemmas.H1Body
+import Req.Lemmas.H1Chunk
 /-!
 C04 — HTTP/1.1 response parsing and framing.
 
@@ -281,5 +281,165 @@ theorem chunked_content_length {isHead : Bool} {sl : StatusLine} {h0 : HeaderMap
           simp [hH] at hcl
           rw [← hcl]
           exact hfC hte hH hba
+
+/-! ### chunked writer / reader round trip -/
+
+/-- **hex_roundtrip.** -/
+theorem hex_roundtrip (n : Nat) (h : n < 2 ^ 64) : parseHexUint (toHex n) = some n :=
+  parseHexUint_toHex n h
+
+/-- **chunked_roundtrip.** For every split of a body into non-empty chunks (each below 2^61
+bytes), every read-buffer size of at least 18 bytes, and whatever follows: the chunked reader
+returns exactly the concatenation of the chunks, ends with io.EOF, and has consumed exactly the
+writer's output (`rest` untouched). -/
+theorem chunked_roundtrip {B : Nat} (hB : 18 ≤ B) (chunks : List Bytes)
+    (hne : ∀ c ∈ chunks, c ≠ []) (hsz : ∀ c ∈ chunks, c.length < 2 ^ 61) (rest : Bytes) :
+    decodeChunked B (encodeChunked chunks ++ rest) = (chunks.flatten, some rest) := by
+  unfold decodeChunked
+  apply chunkLoop_encodeChunked hB chunks hne hsz rest
+  have := encodeChunked_length chunks hne
+  simp
+  omega
+
+/-- The same through `readBody`: chunked framing, no trailers (the final CRLF), followed by
+the bytes of the next message. -/
+theorem chunked_body_roundtrip {B : Nat} (hB : 18 ≤ B) {m : Msg} (hf : m.framing = .chunked)
+    (chunks : List Bytes) (hne : ∀ c ∈ chunks, c ≠ []) (hsz : ∀ c ∈ chunks, c.length < 2 ^ 61)
+    (next : Bytes) :
+    readBody B m (encodeChunked chunks ++ [CR, LF] ++ next) =
+      ⟨chunks.flatten, true, declMap m.trailerDecl, next⟩ := by
+  unfold readBody
+  simp only [hf]
+  have := chunked_roundtrip hB chunks hne hsz ([CR, LF] ++ next)
+  rw [List.append_assoc, this]
+  simp [readTrailer]
+
+example : decodeChunked 4096 (encodeChunked [[104, 101], [108, 108, 111]] ++ [13, 10, 88]) =
+    ([104, 101, 108, 108, 111], some [13, 10, 88]) := by decide
+
+/-! ### Transfer-Encoding and Content-Length together -/
+
+/-- In the chunked branch `fixLength` hands back a header without Content-Length. -/
+theorem fixLength_chunked_header {code : Nat} {h2 h3 : HeaderMap} {rl : Int}
+    (hfl : fixLength code false h2 true = some (rl, h3))
+    (hba : bodyAllowedForStatus code = true) : HeaderMap.get h3 kContentLength = none := by
+  unfold fixLength at hfl
+  simp only at hfl
+  split at hfl
+  · simp at hfl
+  · split at hfl
+    · simp at hfl
+    · simp only [Bool.false_eq_true, if_false] at hfl
+      have h1 : ¬ code / 100 = 1 := by
+        intro h; simp [bodyAllowedForStatus] at hba; omega
+      have h2 : ¬ (code = 204 ∨ code = 304) := by
+        intro h; simp [bodyAllowedForStatus] at hba; omega
+      simp only [h1, h2, if_false, if_true, Option.some.injEq, Prod.mk.injEq] at hfl
+      rw [← hfl.2]
+      exact Req.H1.HeaderMap.get_del_self _ _
+
+/-- **te_and_cl.** A response that is chunked (valid `Transfer-Encoding: chunked` on HTTP/1.1+,
+body allowed, not HEAD): the framing is chunked whatever Content-Length said, the reported
+length is -1 and the Content-Length field is gone from the header. -/
+theorem te_and_cl {sl : StatusLine} {h0 : HeaderMap} {m : Msg}
+    (h : readTransfer false sl h0 = some m) (hte : m.teChunked = true)
+    (hba : bodyAllowedForStatus sl.code = true) :
+    m.framing = .chunked ∧ m.contentLength = -1 ∧ HeaderMap.get m.header kContentLength = none := by
+  have hfr : m.framing = .chunked := (framing_table h).1.mpr ⟨hte, rfl, hba⟩
+  refine ⟨hfr, chunked_content_length h hfr, ?_⟩
+  unfold readTransfer at h
+  simp only at h
+  split at h
+  · simp at h
+  · next chunked h2 hte' =>
+    split at h
+    · simp at h
+    · next realLength h3 hfl =>
+      split at h
+      · simp at h
+      · next cl hcl =>
+        split at h
+        · simp at h
+        · next tr h4 htr =>
+          simp only [Option.some.injEq] at h
+          subst h
+          dsimp only at hte ⊢
+          subst hte
+          have h3n := fixLength_chunked_header hfl hba
+          unfold fixTrailer at htr
+          split at htr
+          · simp only [Option.some.injEq, Prod.mk.injEq] at htr
+            rw [← htr.2]; exact h3n
+          · simp only [Bool.not_true, Bool.false_eq_true, if_false] at htr
+            split at htr
+            · simp at htr
+            · simp only [Option.some.injEq, Prod.mk.injEq] at htr
+              rw [← htr.2]
+              exact Req.H1.HeaderMap.get_del_none _ _ _ h3n
+
+/-! ### malformed classes are rejected -/
+
+/-- Two Transfer-Encoding field lines (or any number other than one) on HTTP/1.1: rejected. -/
+theorem reject_te_not_single {major minor : Nat} {h : HeaderMap} {raw : List Bytes}
+    (hget : HeaderMap.get h kTransferEncoding = some raw) (hv : major > 1 ∨ (major = 1 ∧ minor ≥ 1))
+    (hlen : raw.length ≠ 1) : parseTransferEncoding major minor h = none := by
+  unfold parseTransferEncoding
+  simp only [hget]
+  have : (!(decide (major > 1) || (decide (major = 1) && decide (minor ≥ 1)))) = false := by
+    rcases hv with h1 | ⟨h1, h2⟩ <;> simp [*]
+  simp only [this, Bool.false_eq_true, if_false]
+  match raw, hlen with
+  | [], _ => rfl
+  | [_], hl => simp at hl
+  | _ :: _ :: _, _ => rfl
+
+/-- A Transfer-Encoding other than (case-insensitive) `chunked`: rejected. -/
+theorem reject_te_unsupported {major minor : Nat} {h : HeaderMap} {v : Bytes}
+    (hget : HeaderMap.get h kTransferEncoding = some [v]) (hv : major > 1 ∨ (major = 1 ∧ minor ≥ 1))
+    (hne : Req.Ascii.lower v ≠ vChunked) : parseTransferEncoding major minor h = none := by
+  unfold parseTransferEncoding
+  simp only [hget]
+  have : (!(decide (major > 1) || (decide (major = 1) && decide (minor ≥ 1)))) = false := by
+    rcases hv with h1 | ⟨h1, h2⟩ <;> simp [*]
+  simp only [this, Bool.false_eq_true, if_false]
+  have : (Req.Ascii.lower v == vChunked) = false := by simpa using hne
+  simp [this]
+
+/-- Content-Length values that disagree (after trimming): rejected, whatever the method. -/
+theorem reject_cl_disagree {code : Nat} {isHead chunked : Bool} {h : HeaderMap}
+    {a b : Bytes} {more : List Bytes}
+    (hget : HeaderMap.get h kContentLength = some (a :: b :: more))
+    (hne : trimString b ≠ trimString a) : fixLength code isHead h chunked = none := by
+  unfold fixLength
+  simp only [hget]
+  have : ((a :: b :: more).all fun c => trimString c == trimString a) = false := by
+    simp only [List.all_cons, beq_self_eq_true, Bool.true_and]
+    have : (trimString b == trimString a) = false := by simpa using hne
+    simp [this]
+  simp [this]
+
+/-- A Content-Length that is not a plain decimal number below 2^63: rejected. -/
+theorem reject_cl_invalid {code : Nat} {isHead chunked : Bool} {h : HeaderMap} {v : Bytes}
+    (hget : HeaderMap.get h kContentLength = some [v])
+    (hbad : parseContentLength1 v = none) : fixLength code isHead h chunked = none := by
+  unfold fixLength
+  simp [hget, hbad]
+
+/-- An empty chunk-size line (also with only an extension or blanks) is an error, not a last
+chunk — the repaired behaviour; `parseHexUintLenient` is the unpatched fork. -/
+theorem reject_empty_chunk_size : parseHexUint [] = none ∧ parseHexUintLenient [] = some 0 := by
+  decide
+
+/-- Witness of the known finding (DESIGN section 5 row 14): `5 CRLF hello CRLF CRLF CRLF`. -/
+example : decodeChunked 4096 [53, 13, 10, 104, 101, 108, 108, 111, 13, 10, 13, 10, 13, 10] =
+    ([104, 101, 108, 108, 111], none) := by decide
+
+/-- A status line without a three-digit code, a header line without colon, a header block
+starting with a blank, a control byte in a value: rejected. -/
+example : parseResponse false 4096 [72,84,84,80,47,49,46,49,32,50,48,32,79,75,13,10,13,10] = .reject := by
+  decide
+example : readMIMEHeader [88, 13, 10, 13, 10] = none := by decide
+example : readMIMEHeader [32, 88, 58, 49, 13, 10, 13, 10] = none := by decide
+example : readMIMEHeader [88, 58, 1, 13, 10, 13, 10] = none := by decide
 
 end Req.Props.C04
